@@ -63,6 +63,7 @@ type Exec struct {
 	entryParams map[*ssa.Parameter]SymVal
 	implLocal   map[string]types.Type
 	pushed      bool
+	curLoop     *loopInfo
 }
 
 type pathAbort struct{ reason string }
@@ -761,16 +762,16 @@ func (x *Exec) eventTexts(in ssa.Instruction) map[string]string {
 	case *ssa.Return:
 		out["return"] = ""
 	case *ssa.Store:
-		// anchor: text of the assigned location when recoverable
-		path := x.P.PathAt(i.Pos())
-		for k := len(path) - 1; k >= 0; k-- {
-			if as, ok := path[k].(*ast.AssignStmt); ok {
-				var ls []string
-				for _, l := range as.Lhs {
-					ls = append(ls, x.P.NodeText(l))
+		// anchor: Type.field of the assigned struct field
+		if fa, ok := i.Addr.(*ssa.FieldAddr); ok {
+			if st := derefType(fa.X.Type()); st != nil {
+				if s, ok := types.Unalias(st).Underlying().(*types.Struct); ok {
+					n := structName(st)
+					if k := strings.Index(n, "."); k >= 0 {
+						n = n[k+1:]
+					}
+					out["store"] = n + "." + s.Field(fa.Field).Name()
 				}
-				out["store"] = strings.Join(ls, ", ")
-				break
 			}
 		}
 	}
@@ -808,6 +809,13 @@ func (x *Exec) mapHooks() {
 			for _, in := range b.Instrs {
 				evs := x.eventTexts(in)
 				for _, h := range x.fc.Hooks {
+					if h.Kind == "select" {
+						if sel, ok := in.(*ssa.Select); ok && sel.Blocking {
+							x.hooksAt[in] = append(x.hooksAt[in], h)
+							h.Used++
+						}
+						continue
+					}
 					if h.Kind == "recv" || h.Kind == "send" {
 						if sel, ok := in.(*ssa.Select); ok {
 							for _, s := range sel.States {
